@@ -820,6 +820,7 @@ func (in *Interp) rn(e *Term) *Term {
 		return e
 	}
 	t := App(SReal, "RN", e)
+	in.rnUsed = true
 	if os.Getenv("GOSYMEX_DEBUG_RN") != "" {
 		lo, hi := "nil", "nil"
 		if e.Lo != nil {
